@@ -2,10 +2,10 @@ import ExoVerif.Model.Blocks
 /-!
 # C11 — liveness (partial)
 
-`C11_full` — no reachable state makes block processing halt — is false for the code as it is: four
+`C11_full` — no reachable state makes block processing halt — is false for the code as it is: three
 concrete halts are exhibited in the model and replayed on the real application by the harness
 (`harness/dom_liveness.go`, sigs `halt:…`). `C11_block_never_halts_partial` proves that outside
-those four state shapes the modelled Begin/EndBlock pieces never halt, and
+those three state shapes the modelled Begin/EndBlock pieces never halt, and
 `C11_deliver_panic_is_rejection` that a panic during DeliverTx is a rejected tx with the state
 untouched. Panics inside Cosmos-SDK, IAVL, CometBFT, go-ethereum/evmos are not modelled; the
 repository's remaining panic-capable sites on block paths are listed and classified in
@@ -78,9 +78,6 @@ theorem C11_slash_zero_value_is_logged : slashAssets 0 = .logged := by decide
 
 /-- F-11a: a governance proposal reaches the end of its voting period -/
 theorem C11_witness_gov_tally : block { okState with endingProposals := 1 } = .halt := by decide
-/-- F-11b: a task-result group without any non-empty signature -/
-theorem C11_witness_avs_unsigned_group :
-    block { okState with avsGroups := [[{ taskId := 1, hasSignature := false }]] } = .halt := by decide
 /-- F-11f: an operator's USD value above 2^63-1 at a dogfood epoch end -/
 theorem C11_witness_power_out_of_int64 : block { okState with maxUsdValueInt := 2 ^ 63 } = .halt := by decide
 /-- F-11g: amount·price·10^18 beyond 315 bits (e.g. 2^200 base units at price 1 … 2^256 at any price) -/
@@ -90,19 +87,33 @@ theorem C11_witness_dec_overflow : block { okState with maxAmountTimesPrice := 2
 
 theorem C11_full_fails : ¬ C11_full := fun h => h _ C11_witness_gov_tally
 
-theorem avsEpochEnd_ok (groups : List (List TaskRes)) (h : ∀ g ∈ groups, g.any (·.hasSignature) = true) :
-    avsEpochEnd groups = .ok := by
+/-- F-11b (repaired in the repository): no task-result group halts the AVS epoch hook -/
+theorem C11_avs_group_never_halts (g : TaskGroup) : avsGroup g ≠ .halt := by
+  unfold avsGroup
+  cases g.results.any (·.hasSignature) <;> cases g.taskInfoFound <;> simp
+
+theorem C11_avs_epoch_end_never_halts (groups : List TaskGroup) : avsEpochEnd groups = .ok := by
   unfold avsEpochEnd
-  have : groups.all (fun g => avsGroup g == .ok) = true := by
-    rw [List.all_eq_true]
-    intro g hg
-    simp [avsGroup, h g hg]
+  have : groups.any (fun g => avsGroup g == .halt) = false := by
+    rw [List.any_eq_false]
+    intro g _
+    simpa using C11_avs_group_never_halts g
   simp [this]
 
-/-- Outside the four recorded state shapes, no modelled piece of Begin/EndBlock halts. -/
+/-- the regression state of the directed scenario: an unsigned group is logged and skipped -/
+theorem C11_avs_unsigned_group_is_logged :
+    avsGroup { results := [{ taskId := 1, hasSignature := false }], taskInfoFound := false } = .logged := by decide
+
+/-- and it can no longer be stored in the first place: an accepted phase-one result carries a
+non-empty signature, which survives the protobuf round trip -/
+theorem C11_guard_phase_one_signature (taskId sigLen : Nat) (h : phaseOneAccepts sigLen = true) :
+    (storedPhaseOne taskId sigLen).hasSignature = true := by
+  simpa [phaseOneAccepts, storedPhaseOne] using h
+
+/-- Outside the three recorded state shapes, no modelled piece of Begin/EndBlock halts. -/
 theorem C11_block_never_halts_partial (s : St) (inv : Inv s) : block s ≠ .halt := by
   have h1 : usdValueUpdate s.maxAmountTimesPrice = .ok := by simp [usdValueUpdate, inv.usdFits]
-  have h2 : avsEpochEnd s.avsGroups = .ok := avsEpochEnd_ok _ inv.groupsSigned
+  have h2 : avsEpochEnd s.avsGroups = .ok := C11_avs_epoch_end_never_halts _
   have h4 : dogfoodEndBlock s.maxUsdValueInt = .ok := by
     have := inv.powerFits
     simp only [dogfoodEndBlock]; split <;> first | omega | rfl
@@ -117,24 +128,23 @@ theorem C11_block_never_halts_partial (s : St) (inv : Inv s) : block s ≠ .halt
   | ok => simp
   | logged => simp
 
-/-- the hypothesis is satisfiable by a non-trivial state: a slash of an operator with value, a
-signed task group, a large but representable power -/
+/-- the hypothesis is satisfiable by a non-trivial state: a slash of a valueless operator, a
+signed and an unsigned task group, a large but representable power -/
 example : Inv { slashedOperatorValue := some 0, endingProposals := 0,
-                avsGroups := [[{ taskId := 1, hasSignature := true }, { taskId := 1, hasSignature := false }]],
+                avsGroups := [{ results := [{ taskId := 1, hasSignature := true }, { taskId := 1, hasSignature := false }], taskInfoFound := true },
+                              { results := [{ taskId := 2, hasSignature := false }], taskInfoFound := false }],
                 maxAmountTimesPrice := 10 ^ 30, maxUsdValueInt := 10 ^ 12 } where
   noTally := rfl
-  groupsSigned := by decide
   powerFits := by decide
   usdFits := by decide
 
 /-- Each excluded shape is necessary: dropping any one clause of `Inv` admits a halting state
-(the witnesses above satisfy the other four clauses). -/
+(the witnesses above satisfy the other clauses). -/
 theorem C11_inv_clauses_necessary :
     block { okState with endingProposals := 1 } = .halt ∧
-    block { okState with avsGroups := [[{ taskId := 1, hasSignature := false }]] } = .halt ∧
     block { okState with maxUsdValueInt := 2 ^ 63 } = .halt ∧
     block { okState with maxAmountTimesPrice := 2 ^ 256 } = .halt :=
-  ⟨C11_witness_gov_tally, C11_witness_avs_unsigned_group, C11_witness_power_out_of_int64, C11_witness_dec_overflow⟩
+  ⟨C11_witness_gov_tally, C11_witness_power_out_of_int64, C11_witness_dec_overflow⟩
 
 /-- A panic (or error) while delivering a transaction is a rejection: the outcome is `rejected`
 and the state is exactly the state before the tx; an accepted tx is the only way to change state. -/
